@@ -231,8 +231,9 @@ VARIABLES flat,     \* FlatCase(case...): the element-wise coefficient sequences
           prog,     \* Prog(case.expr): the coefficient stream expressions the library built, set by Build
           reads,    \* reads[i]: values taken from source i so far
           cur,      \* cur[j]: position of tee branch j (one branch per leaf of prog, in pull order)
-          fin       \* "new" | "run" | "input-end" | "coef-end"
-vars6 == <<vars, flat, prog, reads, cur, fin>>
+          fin,      \* "new" | "run" | "input-end" | "coef-end"
+          cok       \* the case with its constant streams replaced by numbers is inside the guards as well
+vars6 == <<vars, flat, prog, reads, cur, fin, cok>>
 
 AllCoefs(p)  == p.b \o Tail(p.a)                     \* pull order: next(b0) .. next(b_lb-1), next(a1) ..
 ProgLeaves(p) == LeavesOf(AllCoefs(p))
@@ -264,7 +265,7 @@ PullFrom(lv, src, j, rd, cu) ==
 \* `case` is the raw case [expr, src, mem, zero]
 Init6 == /\ case \in Raw6
          /\ n = 0 /\ out = <<>> /\ err = "none" /\ fin = "new"
-         /\ flat = <<>> /\ prog = <<>> /\ mreg = <<>> /\ dreg = <<>> /\ reads = <<>> /\ cur = <<>>
+         /\ flat = <<>> /\ prog = <<>> /\ mreg = <<>> /\ dreg = <<>> /\ reads = <<>> /\ cur = <<>> /\ cok = FALSE
 
 \* filter construction (ZFilter / Poly operators) and the call, up to the first next(): no source is read
 Build == /\ fin = "new"
@@ -275,6 +276,8 @@ Build == /\ fin = "new"
          /\ reads' = [i \in DOMAIN case.src |-> 0]
          /\ cur' = [j \in DOMAIN ProgLeaves(prog') |-> 0]
          /\ fin' = "run"
+         /\ cok' = LET ce == Constify(case.expr, case.src)
+                   IN NoSharedDen(ce) /\ Len(Prog(ce).b) >= 1        \* (not the all-zero filter: that is C04's)
          /\ UNCHANGED <<case, n, out, err>>
 
 Pulled == PullFrom(ProgLeaves(prog), case.src, 1, reads, cur)
@@ -296,18 +299,18 @@ Step6 ==
         /\ dreg' = [k \in 1..(lb - 1) |-> IF k = 1 THEN x ELSE dreg[k - 1]]
   /\ n' = n + 1
   /\ reads' = Pulled.reads /\ cur' = Pulled.cur
-  /\ UNCHANGED <<case, err, flat, prog, fin>>
+  /\ UNCHANGED <<case, err, flat, prog, fin, cok>>
 
 \* "for d0 in seq" finds the input exhausted: nothing else is touched
 InputEnd == /\ fin = "run" /\ n = MaxLen
             /\ fin' = "input-end"
-            /\ UNCHANGED <<vars, flat, prog, reads, cur>>
+            /\ UNCHANGED <<vars, flat, prog, reads, cur, cok>>
 
 \* a coefficient stream is exhausted while there is input: the output ends (no exception)
 CoefEnd == /\ fin = "run" /\ n < MaxLen /\ ~Pulled.ok
            /\ fin' = "coef-end"
            /\ reads' = Pulled.reads /\ cur' = Pulled.cur
-           /\ UNCHANGED <<vars, flat, prog>>
+           /\ UNCHANGED <<vars, flat, prog, cok>>
 
 Next6 == Build \/ Step6 \/ InputEnd \/ CoefEnd
 Spec6 == Init6 /\ [][Next6]_vars6
@@ -324,7 +327,7 @@ ReadBound     == Built => \A i \in DOMAIN reads : n <= reads[i] /\ reads[i] <= n
 EndsExactly   == /\ fin = "run" => ((n < MaxLen /\ Pulled.ok) <=> n < RunLen(flat))
                  /\ fin = "coef-end" => n = RunLen(flat) /\ n < MaxLen
                  /\ fin = "input-end" => n = RunLen(flat) /\ n = MaxLen
-ConstStream   == (Built /\ \E i \in DOMAIN case.src : IsConstSrc(case.src[i])) =>
+ConstStream   == (Built /\ cok /\ \E i \in DOMAIN case.src : IsConstSrc(case.src[i])) =>
                  out = DefSeq(FlatCase(Constify(case.expr, case.src), case.src, case.mem, case.zero), n)
 ConstReads0   == n = 0 /\ fin = "run" => \A i \in DOMAIN reads : reads[i] = 0
 
